@@ -7,6 +7,15 @@ props = [json.loads(l) for l in open('/verif/properties.jsonl')]
 
 # id -> (technique, level text, level note)
 CHECKS = {
+ "C01": ("exhaustive lattice enumeration: real encap then real decap of exactly the reported bytes",
+         "Every PDU length 0..=4100 x label kind x re-use row (enabled/disabled, directly after the same label) x buffer lengths around the exact packet size and beyond 4097 x storage sizes >= PDU is executed through the real sender and a real receiver kept in lock-step; all payload contents of length 0..=1 (0..=2 thorough) and all protocol types >= 0x0600 (thorough) are swept; the completed-iff-fits rule is evaluated in every cell.",
+         "trusted: the arithmetic statement of 'fits' (2+label+PDU <= 4095 and packet <= buffer); contents beyond 2 bytes represented by 4 patterns"),
+ "C12": ("exhaustive enumeration against a bit-serial reference CRC + recording CrcCalculator injected into real sender and receiver",
+         "The real DefaultCrc is compared with a table-free bit-serial CRC-32/MPEG-2 on all PDUs <= 2 bytes, every byte value at every position of messages up to 96 (4200 thorough) bytes over two backgrounds, all total lengths and protocol types (thorough: the complete 2^32 square); the wiring is checked by enumerating every fragmented transfer of a small regime with a recording calculator on both sides (arguments, big-endian trailer, receiver recomputation, delivery).",
+         "trusted: refm::crc_update (8 lines); linearity of CRC for inputs beyond the sweep is external mathematics"),
+ "C18": ("exhaustive differential enumeration of preview vs real call",
+         "encap_preview vs encap and encap_frag_preview vs encap_frag are executed side by side on every cell of the size/label/protocol-type/context lattices (all 65536 protocol types in thorough) and must agree on error variant or on kind, packet length and payload length.",
+         "trusted: nothing beyond the harness; substitution rows excluded as the statement says"),
  "C06": ("exhaustive lattice enumeration of the real encap/encap_frag/encap_ext against an independent wire parser",
          "Every cell of complete product lattices (PDU length x buffer length x label x prior encapsulator state x protocol type x fragment id; PDU length x context position x buffer length; extension chains x sizes) is executed on the real code and every emitted packet is parsed by a reference parser written from the standard; all small sizes and complete windows around 4095/4097/65535 are covered, so the size-dependent decisions are closed rather than sampled.",
          "trusted: the reference parser/CRC stand-in in /verif/harness/src/refm.rs; sizes between the windows are represented by the windows (piecewise-linear size decisions)"),
